@@ -159,9 +159,29 @@ def w_statistical(ctx, rng, i):
     ctx.case(("stat", n_pol, with_noise, round(G / 10), fs, wl), sample=dict(N=N, n_pol=n_pol, G=G, NF=NF, fs=fs, wavelength=wl, measured_over_documented=tot / want) if i < 4 else None)
 
 
+def w_two_grids(ctx, rng, i):
+    """the same (G, NF) on two grids (fs, f0) and back: the ASE power must follow the grid in force each time."""
+    N = 2 ** 15
+    G, NF = float(rng.uniform(10, 35)), float(rng.uniform(3, 9))
+    grids = [(8e10, 1550e-9), (1.6e10, 1310e-9), (4e11, 1550e-9), (8e10, 850e-9)]
+    a, b = (grids[k] for k in rng.choice(len(grids), 2, replace=False))
+    np.random.seed(int(rng.integers(2 ** 31)))
+    ctx.describe(G=G, NF=NF, grid_sequence=[a, b, a])
+    x = T.optical_signal(np.zeros(N, complex))
+    for fs, wl in (a, b, a):
+        with core.quiet():
+            T.gv(sps=8, fs=fs, wavelength=wl)
+            y = D.EDFA(x, G, NF)
+        want = 10 ** (NF / 10) * h_planck * (c_light / wl) * (10 ** (G / 10) - 1) * fs
+        tot = float(np.sum(np.mean(np.abs(y.noise) ** 2, axis=-1)))
+        ctx.check("stat.power", abs(tot - want) <= 6 * want * np.sqrt(1 / (2 * N)), f"ASE power {tot:.6g} W vs NF*h*f0*(G-1)*fs = {want:.6g} W on grid fs={fs:.3g}, wavelength={wl:.4g} (sequence {[a, b, a]})", ratio=tot / want)
+    ctx.case(("grids", a, b, round(G / 5)), sample=dict(G=G, NF=NF, grid_sequence=[a, b, a]) if i < 2 else None)
+
+
 WORKLOADS = [
     Workload("gain", w_gain, 2500, 60000),
     Workload("statistical", w_statistical, 24, 160, budget=300),
+    Workload("two_grids", w_two_grids, 12, 200, budget=300),
 ]
 
 
